@@ -347,18 +347,24 @@ theorem parseStatementCore_ok (fmt : Nat → List Char) (fparse : String → Opt
     simp [instrToks, opTok, parseStatementCore, bind, Except.bind, pure, Except.pure, eraseInstr, normPhiInstr,
       eraseOpnd, this]
   | const d ty c =>
-    rw [show instrToks fmt (.const d ty c) = tyToks ty ++ [.id d, .sym "=", constTok fmt c] from rfl,
-      List.append_assoc, parseStatementCore_assign]
+    rw [show instrToks fmt (.const d ty c) = tyToks ty ++ ([.id d, .sym "="] ++ constToks fmt c) from by
+      simp [instrToks], List.append_assoc, parseStatementCore_assign]
     cases c with
     | int v =>
       have hn : next (Tok.int v :: Tok.sym ";" :: rest) = .ok (Tok.int v, Tok.sym ";" :: rest) :=
         next_ok _ _ (by simp) (by simp)
-      simp [parseAssignment, constTok, bind, Except.bind, pure, Except.pure, eraseInstr, normPhiInstr, hn]
+      simp [parseAssignment, constToks, bind, Except.bind, pure, Except.pure, eraseInstr, normPhiInstr, hn]
     | fbits b =>
-      have hn : next (Tok.flt (String.ofList (fmt b)) :: Tok.sym ";" :: rest) =
-          .ok (Tok.flt (String.ofList (fmt b)), Tok.sym ";" :: rest) := next_ok _ _ (by simp) (by simp)
-      simp [parseAssignment, constTok, bind, Except.bind, pure, Except.pure, eraseInstr, normPhiInstr, hn,
-        hp.flt d ty b rfl]
+      by_cases hnf : nonFinite b = true
+      · have hc : consume "STRING" (Tok.str (String.ofList (fmt b)) :: Tok.sym ";" :: rest) =
+            .ok (Tok.str (String.ofList (fmt b)), Tok.sym ";" :: rest) :=
+          consume_ok _ _ _ rfl (by simp) (by simp)
+        simp [parseAssignment, constToks, hnf, symBinop, bind, Except.bind, pure, Except.pure, eraseInstr,
+          normPhiInstr, hc, hp.flt d ty b rfl]
+      · have hn : next (Tok.flt (String.ofList (fmt b)) :: Tok.sym ";" :: rest) =
+            .ok (Tok.flt (String.ofList (fmt b)), Tok.sym ";" :: rest) := next_ok _ _ (by simp) (by simp)
+        simp [parseAssignment, constToks, hnf, bind, Except.bind, pure, Except.pure, eraseInstr, normPhiInstr, hn,
+          hp.flt d ty b rfl]
   | undefined d ty =>
     rw [show instrToks fmt (.undefined d ty) = tyToks ty ++ [.id d, .sym "=", .id "undefined"] from rfl,
       List.append_assoc, parseStatementCore_assign]
@@ -453,14 +459,14 @@ theorem parseStatementCore_ok (fmt : Nat → List Char) (fparse : String → Opt
       have hk' : ∀ k ∈ assignKeywords, ¬ opName a = k := fun k hk'' e => hk (e ▸ hk'')
       simp [parseAssignment, opTok, binopTok, bind, Except.bind, pure, Except.pure, eraseInstr, normPhiInstr,
         eraseOpnd, hk' "phi" (by decide), hk' "alloc" (by decide), hk' "load" (by decide), hk' "cast" (by decide),
-        hk' "call" (by decide), hk' "literal" (by decide), hk' "volatile" (by decide), hk' "undefined" (by decide)]
+        hk' "call" (by decide), hk' "literal" (by decide), hk' "volatile" (by decide), hk' "undefined" (by decide), hk' "float" (by decide)]
     · by_cases hror : op = .ror
       · subst hror
         have hk := hp.rol d ty a b (Or.inr rfl)
         have hk' : ∀ k ∈ assignKeywords, ¬ opName a = k := fun k hk'' e => hk (e ▸ hk'')
         simp [parseAssignment, opTok, binopTok, bind, Except.bind, pure, Except.pure, eraseInstr, normPhiInstr,
           eraseOpnd, hk' "phi" (by decide), hk' "alloc" (by decide), hk' "load" (by decide), hk' "cast" (by decide),
-          hk' "call" (by decide), hk' "literal" (by decide), hk' "volatile" (by decide), hk' "undefined" (by decide)]
+          hk' "call" (by decide), hk' "literal" (by decide), hk' "volatile" (by decide), hk' "undefined" (by decide), hk' "float" (by decide)]
       · have hbt : binopTok op = .sym op.symbol := by cases op <;> first | rfl | exact absurd rfl hrol | exact absurd rfl hror
         have hn : next (Tok.sym op.symbol :: Tok.id (opName b) :: Tok.sym ";" :: rest) =
             .ok (Tok.sym op.symbol, Tok.id (opName b) :: Tok.sym ";" :: rest) := next_ok _ _ (by simp) (by simp)
@@ -511,7 +517,9 @@ theorem instrToks_head (fmt : Nat → List Char) (i : Instr) (h : ∀ tpl a b c,
   cases i with
   | asm tpl a b c => exact (h tpl a b c rfl).elim
   | store ty v a vol => cases vol <;> exact ⟨_, _, rfl⟩
-  | const d ty c => exact head_append ty _
+  | const d ty c =>
+    have := head_append ty ([Tok.id d, Tok.sym "="] ++ constToks fmt c)
+    simpa [instrToks, List.append_assoc] using this
   | undefined d ty => exact head_append ty _
   | literal d data => exact ⟨_, _, rfl⟩
   | alloc d s a => exact ⟨_, _, rfl⟩
